@@ -25,6 +25,14 @@ CHECKS = {
             "vi/ex editing programs over multi-byte text whose output must stay valid UTF-8 (ASan build).",
             "Exhaustive only for the enumerated sub-spaces (flagged in evidence); the reference segmentation in models/utf8.py "
             "is trusted.", "3/C16"),
+    "C04": ("exploration", "exhaustive small-scope enumeration of line-buffer operation sequences against a snapshot model + "
+                           "stateful property-based ex/vi histories with a model-free history invariant and an observer-free twin run",
+            "All operation sequences up to depth 4/5 over a 31-operation alphabet (and depth 7/8 over 8 operations) at the lbuf "
+            "interface compared with a stack-of-snapshots model after every operation (text, undo/redo return values at the ends, "
+            "modified flag); random ex and vi histories where every text observed after undo/redo must equal the text observed "
+            "before the corresponding change, and the same history without observers must end in the same text.",
+            "Exhaustive only up to the stated depths/alphabet; editor-level part is sampled; a no-op edit may or may not log a "
+            "step (both accepted).", "3/C04"),
 }
 
 ALL = ["C%02d" % i for i in range(1, 21)]
